@@ -110,6 +110,8 @@ def find_powershell_strings(data: bytes) -> list[Node]:
                 else:
                     # In a single quoted string, find the end quote
                     end = data.find(b"'", start)
+                if end < 0:
+                    end = len(data)  # unterminated: runs to the end of the text
                 powershell = data[start:end]
             else:
                 # No recognizable context, assume rest of file is all powershell
